@@ -274,6 +274,7 @@ def compare(tdfa, spec, sc_names, variable_trailing=False, limit=400000):
 # ------------------------------------------------------------------ driver shared by C01.R7 and C02.R5
 
 _results = {}
+_gen_stats = {}
 def language_results(ctx, probes=None):
     """{variant name: (probe, table kind, reject?, disagreements, product states)} for the language probes (only the named
     probes when `probes` is given)"""
@@ -283,10 +284,22 @@ def language_results(ctx, probes=None):
     vs = tbl_probes.language_variants(ctx.tier == 'thorough', ctx.art)
     if probes is not None: vs = [v for v in vs if v.name.split('_')[1] in probes]
     variants.instantiate(ctx.art, vs, 'lang')
+    gen = []
+    if probes is None:
+        # generated rule sets (rules/tbl_gen.py): deterministic, numbered from 1000 * VERIF_SEED
+        import tbl_gen
+        n, tabs = (48, ('Cem', 'C', 'Cf', 'CF', 'CFe', 'Cem_rej')) if ctx.tier == 'thorough' else (10, ('Cem', 'CF', 'Cem_rej'))
+        base = 1000 * int(getattr(ctx, 'seed', 0) or 0)
+        gen = tbl_gen.generated_variants(range(base, base + n), tabs)
+        variants.instantiate(ctx.art, gen, 'gen_%s_%d' % (ctx.tier, base))
+        vs = vs + gen
     out = {}
+    nref = 0
     for v in vs:
         probe = v.name.split('_')[1]
         rej = v.name.endswith('_rej')
+        if v in gen and v.refused and not v.crashed:
+            nref += 1; continue         # a generated rule set that flex declines with a message is no verdict either way
         if v.crashed or v.refused or v.ll is None:
             out[v.name] = (probe, None, rej, 'not generated: %s' % ((v.stderr or v.ll_err or '').strip().split('\n')[-1][:120]), 0, v)
             continue
@@ -297,6 +310,10 @@ def language_results(ctx, probes=None):
             out[v.name] = (probe, t.kind, rej, dis, n, v)
         except TableError as e:
             out[v.name] = (probe, None, rej, 'table model: %s' % e, 0, v)
+    if gen and nref * 5 > len(gen):
+        import common
+        raise common.AnalysisBroken('flex refused %d of %d generated rule sets: the generator no longer matches the accepted language' % (nref, len(gen)))
+    _gen_stats[key] = (len(gen), nref)
     _results[key] = out
     return out
 
@@ -321,6 +338,8 @@ def rule_language(ctx, rule, probes=None, what='language and rule priority', rej
                      'after reading %r the generated tables say "%s" but the rule set says "%s" (rule numbers are positions in the probe; probe %s, %s tables)' % (w, tv, rv, probe, kind),
                      replay_input=v.spec() + '\n--- input: %r' % w, variant=v.describe())
     rep.setcount('language_probe_variants', len(res)); rep.setcount('language_product_states', states)
+    for k_, (ng, nr_) in _gen_stats.items():
+        if k_[2] is None: rep.setcount('generated_rule_set_variants', ng); rep.setcount('generated_rule_set_variants_refused_by_flex', nr_)
     if notgen: rep.broken('; '.join(notgen[:3]) + (' (+%d more)' % (len(notgen) - 3) if len(notgen) > 3 else ''))
     return len(res)
 
